@@ -19,6 +19,7 @@ def run(ctx):
     lib_variant.traversal_push(ctx, P, tus=["genotypes"])
     lib_vcf.mark_missing(ctx, P)
     lib_module.options_plumbing(ctx, P, funcs={"Variant_init"})
+    lib_module.flags_consumed(ctx, P, funcs={"Variant_init"})
     lib_module.array_flags(ctx, P, only=ms)
     lib_module.parsed_used(ctx, P, only=ms)
     lib_py.alias_polarity(ctx, py)
